@@ -88,6 +88,241 @@ CONTRACTS = [atoms_loop]
 LEMMAS = []
 
 
+# ------------------------------------------------------------------ write_molecule_itp: one interaction line
+Inter = TKey('Inter')
+Line = TTuple(TSeq(TInt), TStr, names=['toks', 'comment'])
+
+
+def world_lines(cx, lines):
+    """interactions as abstract objects; an interaction line as the record (tokens, comment): a token is the new number
+    of an atom or the negative token ptok(i) that stands for the joined parameters of interaction i"""
+    eng = cx.eng
+    from pyvc.values import IterV
+    from pyvc.builtins import list_append, _int
+    atoms_of = cx.uf('atoms_of', [Inter], TSeq(Key))
+    ptok = cx.uf('ptok', [Inter], TInt)
+    has_comment = cx.uf('has_comment', [Inter], TBool)
+    comment_of = cx.uf('comment_of', [Inter], TStr)
+    i_ = z3.Const('i', Inter.sort())
+    cx.assume(z3.ForAll([i_], z3.And(ptok(i_) < 0, TSeq(Key).len(atoms_of(i_)) >= 0)))
+    eng.attr_hooks[('Inter', 'atoms')] = lambda e, i: SV(TSeq(Key), atoms_of(to_z3(i, Inter)))
+
+    def params(e, i):
+        it = IterV(e.fresh(TInt, 'nparams'), lambda q: SV(TStr, e.fresh(TStr, 'param')))
+        it.tag = to_z3(i, Inter)
+        return it
+    eng.attr_hooks[('Inter', 'parameters')] = params
+    eng.attr_hooks[('Inter', 'meta')] = lambda e, i: Obj(
+        'meta',
+        __contains__=Builtin(lambda e2, k: wrap(TBool, has_comment(to_z3(i, Inter))) if k == 'comment' else
+                             (_ for _ in ()).throw(EngineError('%r in meta' % (k,))), 'in meta'),
+        __getitem__=Builtin(lambda e2, k: SV(TStr, comment_of(to_z3(i, Inter))) if k == 'comment' else
+                            (_ for _ in ()).throw(EngineError('meta[%r]' % (k,))), 'meta[]'))
+    eng.format_hooks['{atom_idx:>{max_length[idx]}}'] = lambda e, atom_idx=None, max_length=None: atom_idx
+    cx.spec_env['str'] = Builtin(lambda e, x: x, 'str')
+
+    def join(e, pieces):
+        tag = getattr(pieces, 'tag', None)
+        if tag is not None:
+            return SV(TInt, ptok(tag))                       # ' '.join(str(x) for x in interaction.parameters)
+        toks = to_z3(pieces, TSeq(TInt))                     # ' '.join(to_join): the line, as its tokens
+        o = Obj('line', toks=SV(TSeq(TInt), toks), comment='')
+
+        def add(e2, other):
+            if other == '\n':
+                return o
+            cur = o.attrs['comment']
+            if cur != '':
+                raise EngineError('second comment on a line')
+            o.attrs['comment'] = other
+            return o
+        o.attrs['__add__'] = Builtin(add, 'line +')
+        return o
+    eng.join_hooks[' '] = join
+
+    def write(e, x):
+        if isinstance(x, Obj) and x.cls == 'line':
+            list_append(e, lines, (x.attrs['toks'], x.attrs['comment']))
+            return
+        return write_other(e, x)
+    write_other = lambda e, x: None
+    return write
+
+
+def setup_line(cx):
+    LINES = cx.heap('LINES', cx.box('LINES', TSeq(Line)))
+    write = world_lines(cx, LINES)
+    return dict(interaction=cx.val('interaction', Inter), correspondence=cx.val('correspondence', TMap(Key, TInt)),
+                name=cx.val('name', TStr), max_length=Obj('max_length'), outfile=Obj('outfile', write=Builtin(write, 'outfile.write')))
+
+
+SPEC_LINE = {
+    'A': "lambda i: atoms_of(i)",
+    'newno': "lambda i, j: correspondence[atoms_of(i)[j]]",
+    # the layout of the line of interaction i in section `name`
+    'layout': "lambda L, i: len(L.toks) == len(A(i)) + 1 and "
+              "(L.toks[0] == newno(i, 0) and L.toks[1] == ptok(i) and "
+              " forall(lambda j: implies(1 <= j and j < len(A(i)), L.toks[j + 1] == newno(i, j)))"
+              " if name == 'virtual_sitesn' else "
+              " forall(lambda j: implies(0 <= j and j < len(A(i)), L.toks[j] == newno(i, j))) and L.toks[len(A(i))] == ptok(i)) and "
+              "L.comment == (' ; ' + comment_of(i) if has_comment(i) else '')",
+}
+one_line = FunctionContract(
+    F, 'write_molecule_itp', 'C02', short='write_molecule_itp[one interaction line]', setup=setup_line, spec_defs=SPEC_LINE,
+    spec_env=dict(Key=Key, Inter=Inter),
+    region=dict(within=["for name in molecule.sort_interactions(molecule.interactions):",
+                        "for (conditional, group), interactions_in_group in interaction_grouped:",
+                        "for interaction in interactions_in_group:"], start="atoms = ["),
+    requires=["len(atoms_of(interaction)) >= 1",
+              "forall(lambda j: implies(0 <= j and j < len(atoms_of(interaction)), atoms_of(interaction)[j] in correspondence))"],
+    ensures=[
+        # exactly one line: the atoms by their new numbers, in the interaction's order, the parameters last - or, for n-body
+        # virtual sites, right after the first atom -, followed by the interaction's comment if it has one
+        "len(LINES) == len(old(LINES)) + 1",
+        "layout(LINES[len(old(LINES))], interaction)",
+        "forall(lambda k: implies(0 <= k and k < len(old(LINES)), LINES[k] == old(LINES)[k]))",
+    ],
+    modifies=['LINES'],
+    canary=[("to_join = [atoms[0], parameters] + atoms[1:]", "to_join = [atoms[0], parameters] + atoms[2:]"),
+            ("to_join = atoms + [parameters]", "to_join = [parameters] + atoms"),
+            ("atom_idx=correspondence[x]", "atom_idx=correspondence[interaction.atoms[0]]")],
+)
+CONTRACTS.append(one_line)
+
+
+# ------------------------------------------------------------------ write_molecule_itp: the groups of one section
+Txt = TKey('Txt')                                           # pieces of text (an abstract sort: z3 strings are slow)
+Ev = TTuple(TInt, Txt, Txt, names=['kind', 'a', 'b'])     # 0 guard (keyword, name)  1 group comment  2 interaction line
+GUARD, COMMENT, LINE_, ENDIF, TEXT, BLANK = 0, 1, 2, 3, 4, 5  # 3 #endif  4 user's post-section line  5 empty line
+
+
+def setup_groups(cx):
+    eng = cx.eng
+    from pyvc.values import IterV, COERCIONS
+    from pyvc.builtins import _int, list_append, StatefulIter
+    lits = {t: z3.Const('txt!' + (t or 'empty'), Txt.sort()) for t in ('#ifdef', '#ifndef', '')}
+    cx.assume(z3.Distinct(*lits.values()))
+    str2txt = cx.uf('str2txt', [TStr], Txt)
+    def to_txt(e):
+        if z3.is_string_value(e) and e.as_string() in lits:
+            return lits[e.as_string()]
+        if z3.is_app_of(e, z3.Z3_OP_ITE):
+            return z3.If(e.arg(0), to_txt(e.arg(1)), to_txt(e.arg(2)))      # a choice between literals stays a choice
+        return str2txt(e)
+    COERCIONS[('Str', 'Txt')] = to_txt
+    nonempty = cx.uf('nonempty', [Txt], TBool)
+    eng.truth_hooks['Txt'] = lambda e, v: nonempty(v.e)
+    EV = cx.heap('EV', cx.box('EV', TSeq(Ev)))
+    srt = cx.val('sorted_interactions', TSeq(Inter))          # sorted(interactions, key=_interaction_sorting_key)
+    cx.spec_env['srt'] = srt
+    st = TSeq(Inter)
+    se = to_z3(srt)
+    # assumed contract of itertools.groupby(sorted, key): the maximal runs of equal keys, in order; a key is
+    # (conditional, group) with conditional = () or (name, True) for #ifdef / (name, False) for #ifndef
+    G = z3.Int('n_groups')
+    cx.spec_env['n_groups'] = SV(TInt, G)
+    start, size = cx.uf('g_start', [TInt], TInt), cx.uf('g_size', [TInt], TInt)
+    cpres, cname, cflag = cx.uf('cond_present', [TInt], TBool), cx.uf('cond_name', [TInt], Txt), cx.uf('cond_flag', [TInt], TBool)
+    grp = cx.uf('group_of', [TInt], Txt)
+    g = z3.Int('g')
+    n = st.len(se)
+    cx.assume(z3.And(G >= 0, start(0) == 0, start(G) == n))
+    cx.assume(z3.ForAll([g], z3.Implies(z3.And(0 <= g, g < G), z3.And(size(g) >= 1, start(g + 1) == start(g) + size(g), start(g) >= 0, start(g) + size(g) <= n)),
+                        patterns=[size(g)]))
+
+    def group(k):
+        k = _int(k)
+        cond = Obj('conditional')
+        cond.__dict__['truth'] = cpres(k)
+        cond.attrs['__getitem__'] = Builtin(lambda e, j: SV(Txt, cname(k)) if j == 0 else (SV(TBool, cflag(k)) if j == 1 else
+                                            (_ for _ in ()).throw(EngineError('conditional[%r]' % (j,)))), 'conditional[]')
+        members = StatefulIter(IterV(size(k), lambda q: SV(Inter, st.at(se, start(k) + _int(q)))))
+        return ((cond, SV(Txt, grp(k))), members)
+    groups = IterV(G, group)
+    lines = Box(TSeq(Line))
+    write_line = world_lines(cx, lines)
+    eng.format_hooks['{} {}\n'] = lambda e, a, b: ('guard', a, b)
+    eng.format_hooks['; {}\n'] = lambda e, a: ('comment', a)
+
+    def write(e, x):
+        if isinstance(x, Obj) and x.cls == 'line':
+            return list_append(e, EV, (LINE_, '', ''))
+        if isinstance(x, tuple) and x[0] == 'guard':
+            return list_append(e, EV, (GUARD, x[1], x[2]))
+        if isinstance(x, tuple) and x[0] == 'comment':
+            return list_append(e, EV, (COMMENT, x[1], ''))
+        if x == '#endif\n':
+            return list_append(e, EV, (ENDIF, '', ''))
+        if x == '\n':
+            return list_append(e, EV, (BLANK, '', ''))
+        if isinstance(x, SV) and x.ty == TStr:
+            return list_append(e, EV, (TEXT, x, ''))
+        raise EngineError('outfile.write of %r' % (x,))
+    post_lines = cx.val('post_lines', TSeq(TStr))
+    cx.spec_env['n_post'] = SV(TInt, TSeq(TStr).len(post_lines.e))
+    post = Obj('post_section_lines', get=Builtin(lambda e, k, d=None: post_lines, 'post_section_lines.get'))
+    cx.spec_env['itertools'] = Obj('itertools', groupby=Builtin(lambda e, seq, key=None: groups, 'itertools.groupby'))
+    cx.spec_env['_interaction_sorting_key'] = Obj('_interaction_sorting_key')
+    return dict(interactions_group_sorted=srt, conditional_keys={True: '#ifdef', False: '#ifndef'}, name=cx.val('name', TStr),
+                correspondence=cx.val('correspondence', TMap(Key, TInt)), max_length=Obj('max_length'),
+                outfile=Obj('outfile', write=Builtin(write, 'outfile.write')), post_section_lines=post)
+
+
+SPEC_GR = {
+    'kind': "lambda p: EV[p].kind",
+    'c': "lambda g: 1 if cond_present(g) else 0",
+    'h': "lambda g: (1 if cond_present(g) else 0) + (1 if nonempty(group_of(g)) else 0)",
+    # the kind of event expected at offset `off` of the block of group g: the guard (if any), the group comment (if any), one
+    # line per member, #endif (if guarded), the user's post-section lines, an empty line
+    'expected': "lambda g, off: 0 if (cond_present(g) and off == 0) else (1 if off < h(g) else (2 if off < h(g) + g_size(g) else "
+                "(3 if (cond_present(g) and off == h(g) + g_size(g)) else (4 if off < h(g) + g_size(g) + c(g) + n_post else 5))))",
+    'blen': "lambda g: h(g) + g_size(g) + c(g) + n_post + 1",
+    'block_ok': "lambda g: g in g_lo and 0 <= g_lo[g] and g_lo[g] + blen(g) <= len(EV) and "
+                "forall(lambda p: implies(g_lo[g] <= p and p < g_lo[g] + blen(g), kind(p) == expected(g, p - g_lo[g]))) and "
+                # the guard line states #ifdef / #ifndef as the interactions' meta says, with their macro name
+                "implies(cond_present(g), EV[g_lo[g]].a == ('#ifdef' if cond_flag(g) else '#ifndef') and EV[g_lo[g]].b == cond_name(g))",
+}
+GR_INV = [
+    "forall(lambda g: implies(0 <= g and g < _i, block_ok(g)))",
+    "forall(lambda g: implies(0 <= g and g + 1 < _i, g_lo[g] + blen(g) == g_lo[g + 1]))",
+    "implies(_i > 0, g_lo[0] == len(old(EV)) and g_lo[_i - 1] + blen(_i - 1) == len(EV))",
+    "implies(_i == 0, len(EV) == len(old(EV)))",
+    "forall(lambda k: implies(0 <= k and k < len(old(EV)), EV[k] == old(EV)[k]))",
+]
+group_blocks = FunctionContract(
+    F, 'write_molecule_itp', 'C02', short='write_molecule_itp[groups of one section]', setup=setup_groups, spec_defs=SPEC_GR,
+    spec_env=dict(Key=Key, Inter=Inter, Txt=Txt),
+    region=dict(within=["for name in molecule.sort_interactions(molecule.interactions):"],
+                start="interaction_grouped = itertools.groupby("),
+    locals=dict(g_lo=TMap(TInt, TInt)),
+    requires=["forall(lambda q: implies(0 <= q and q < len(srt), len(atoms_of(srt[q])) >= 1 and "
+              "   forall(lambda j: implies(0 <= j and j < len(atoms_of(srt[q])), atoms_of(srt[q])[j] in correspondence))))"],
+    ghost_at={'entry': "g_lo = {}"},
+    ensures=[c.replace('_i', 'n_groups') for c in GR_INV],
+    modifies=['EV'],
+    loops={
+        'L1': LoopSpec(inv=GR_INV, modifies=['EV', 'g_lo'], locals=dict(g_lo=TMap(TInt, TInt), g_e0=TInt, g_EV=TSeq(Ev)),
+                       ghost_pre="g_e0 = len(EV)\ng_EV = list(EV)",
+                       ghost_end="g_lo[_i] = g_e0\n"
+                                 "prove(forall(lambda g: implies(0 <= g and g < _i, block_ok(g))), 'earlier-blocks-untouched')\n"
+                                 "prove(block_ok(_i), 'this-block')"),
+        'L1.1': LoopSpec(inv=["len(EV) == g_e0 + h(_iL1) + _i",
+                              "forall(lambda p: implies(g_e0 <= p and p < g_e0 + h(_iL1) + _i, kind(p) == expected(_iL1, p - g_e0)))",
+                              "implies(cond_present(_iL1), EV[g_e0].a == ('#ifdef' if cond_flag(_iL1) else '#ifndef') and EV[g_e0].b == cond_name(_iL1))",
+                              "forall(lambda k: implies(0 <= k and k < g_e0, EV[k] == g_EV[k]))"],
+                         modifies=['EV']),
+        'L1.2': LoopSpec(inv=["len(EV) == g_e0 + h(_iL1) + g_size(_iL1) + c(_iL1) + _i",
+                              "forall(lambda p: implies(g_e0 <= p and p < g_e0 + h(_iL1) + g_size(_iL1) + c(_iL1) + _i, kind(p) == expected(_iL1, p - g_e0)))",
+                              "implies(cond_present(_iL1), EV[g_e0].a == ('#ifdef' if cond_flag(_iL1) else '#ifndef') and EV[g_e0].b == cond_name(_iL1))",
+                              "forall(lambda k: implies(0 <= k and k < g_e0, EV[k] == g_EV[k]))"],
+                         modifies=['EV']),
+    },
+    canary=[("conditional_key = conditional_keys[conditional[1]]", "conditional_key = conditional_keys[not conditional[1]]"),
+            ("if conditional:\n                outfile.write('#endif\\n')", "if group:\n                outfile.write('#endif\\n')")],
+)
+CONTRACTS.append(group_blocks)
+
+
 def extra_obligations(tier):
     obs = []
 
